@@ -122,7 +122,7 @@ def scribble(v, rng):
 
 
 def run(ctx):
-    n = 200 if ctx.tier == "quick" else 4000
+    n = 600 if ctx.tier == "quick" else 8000
     done = 0
     while done < n and ctx.time_left() > 10:
         models = gen_models(ctx, min(200, n - done))
